@@ -129,7 +129,34 @@ def sym_groups(tier, seed):
         groups.append({"key": "%s/pred-qr" % isa, "header": "reduce_real.h", "isa": isa, "opt": "-O2", "calls": calls})
         if isa != "scalar":
             groups.append(hstep_group(isa, ds))
+    # FASTOR_USE_HADD (config/macros.h): the second, macro-selected bodies of _mm_sum_ps/_pd, _mm256_sum_ps/_pd, _add_pd(__m256d)
+    for isa in (HADD_ISAS if quick else HADD_ISAS + ["avx"]):
+        g = hstep_group(isa, ds)
+        g.update({"key": "%s/hadd/hstep" % isa, "defs": ["-DFASTOR_USE_HADD"]})
+        groups.append(g)
+        calls = ['rr::run_minmax<%s,%d>("%s", "%s", %du, 0);' % (t, n, seeds["min"], seeds["max"], ds + n) for t in ("float", "double") for n in (3, lanes(isa, SZ[t]) + 1)]
+        groups.append({"key": "%s/hadd/minmax" % isa, "header": "reduce_real.h", "isa": isa, "opt": "-O2", "defs": ["-DFASTOR_USE_HADD"], "calls": calls})
     return groups
+
+def hadd_real_group(isa, ds):
+    # the same real-type runs with -DFASTOR_USE_HADD: the small specialised sizes 2,3,4,8,9,16 and generic sizes through
+    # sum / product / norm / inner / trace / determinant (float and double go through _add_ps/_add_pd, _mm*_sum_*)
+    calls = []
+    for t in ("float", "double"):
+        V = lanes(isa, SZ[t])
+        for n in sorted(set([2, 3, 4, 8, 9, 16, V + 1, 2 * V + 3, 8 * V + 1])):
+            calls.append("rr::run_rsum<%s,%d>(%du);" % (t, n, ds + n))
+        for m in (1, 2, 3, 4):
+            calls.append("rr::run_rmat<%s,%d>(%du);" % (t, m, ds + m))
+        for m in (1, 2, 3, 4, 5):
+            calls.append("rr::run_detreal<%s,%d,0>(%du);" % (t, m, ds + m))
+        calls.append("rr::run_detreal<%s,%d,1>(%du);" % (t, 6, ds))
+        calls.append("rr::run_rbatch<%s,2,3>(%du);" % (t, ds))
+        calls.append("rr::run_fbound<%s,%d>(%du);" % (t, 2 * V + 3, ds))
+        calls.append("rr::run_cplx<%s,%d>(%du);" % (t, 5, ds))
+    abis = {"sse2": ["sse"], "sse42": ["sse"], "avx": ["sse", "avx"], "avx2": ["sse", "avx"], "avx512": ["sse", "avx", "avx512"]}.get(isa, [])
+    calls += ['rr::run_hvec<%s,Fastor::simd_abi::%s>("%s", %du);' % (t, a, a, ds) for a in abis for t in ("float", "double")]
+    return ({"key": "%s/hadd/real" % isa, "header": "reduce_real.h", "isa": isa, "opt": "-O2", "defs": ["-DFASTOR_USE_HADD"], "calls": calls})
 
 def real_groups(tier, seed):
     rng = random.Random(seed * 911 + 16)
@@ -183,9 +210,12 @@ def real_groups(tier, seed):
                 if not quick or m in (1, 2, 3, 5, 8):
                     calls.append("rr::run_detrat<%d,1>(%du);" % (m, ds + m))
             groups.append({"key": "%s/detrat" % isa, "header": "reduce_real.h", "isa": isa, "opt": "-O2", "calls": calls})
+    for isa in (HADD_ISAS if quick else [i for i in core.ALL_ISAS if i != "scalar"]):
+        groups.append(hadd_real_group(isa, ds))
     return groups
 
 # ---- horizontal helpers of extintrin.h: executed by the driver from the definitions generated by vlib/xlate_simd.py ------
+HADD_ISAS = ["sse42", "avx2", "avx512"]     # sse2 has no SSE3: FASTOR_USE_HADD selects nothing there (sse2/hadd/real still runs in the thorough tier)
 HSTEP_FNS = ["hmax_ps", "hmin_ps", "hmax_pd", "hmin_pd", "sum_ps", "prod_ps", "sum_pd", "prod_pd", "sum_epi32", "prod_epi32",
              "hmax256_ps", "hmin256_ps", "hmax256_pd", "hmin256_pd", "sum256_ps", "prod256_ps", "sum256_pd", "prod256_pd"]
 
@@ -272,7 +302,17 @@ def run(tier, seed):
             regen_reports["spec_" + isa] = r
     ok, info = core.proof_stage(v, PID, thorough=(tier == "thorough"), regen=regen)
     v.cov["proof"] = {k: info.get(k) for k in ("build_ok", "problems", "failed_modules", "errors", "leanchecker", "log")}
-    v.cov["generated"] = {isa: {"translated": len(r.get("translated", ())), "untranslated": len(r.get("untranslated", ())), "rewritten": bool(r.get("changed"))}
+    if info.get("build_ok"):
+        # the theorems about the FASTOR_USE_HADD bodies live in Props/C16Hadd.lean (built by proof_stage): audit them too
+        thms2 = core.prop_theorems("C16Hadd")
+        res2, prob2 = core.audit_axioms("C16Hadd")
+        v.cov["obligations"] += len(thms2)
+        v.cov["discharged"] += len([t for t in thms2 if t in res2 and all(a in core.ALLOWED_AXIOMS for a in res2[t])])
+        v.cov.setdefault("theorems", []).extend({"name": t, "axioms": res2.get(t)} for t in thms2)
+        if prob2:
+            info.setdefault("problems", []).extend(prob2); ok = False
+    cnt = lambda x: x if isinstance(x, int) else len(x or ())
+    v.cov["generated"] = {isa: {"translated": cnt(r.get("translated", ())), "untranslated": cnt(r.get("untranslated", ())), "stubs": list(r.get("stubs", ())), "rewritten": bool(r.get("changed"))}
                           for isa, r in regen_reports.items()}
     have_model = True
     if not info.get("build_ok"):
